@@ -501,9 +501,28 @@ func c7Lazy(c *Ctx) {
 	// closure stores originalCore.With(fields) into core, exactly once
 	n := 0
 	okVal := false
-	for _, st := range FieldStoresOf(init, lz) {
-		n++
-		okVal = st.Field == "core" && Desc(st.Instr.Val) == "With(d.originalCore, d.fields)"
+	bodies := []*ssa.Function{init}
+	for _, cl := range Calls(init) {
+		if IsCallTo(cl, "(*sync.Once).Do") {
+			if mk, ok := Args(cl)[1].(*ssa.MakeClosure); ok {
+				if b := onceBody(mk); b != nil && b.Parent() != init {
+					bodies = append(bodies, b)
+				}
+			}
+		}
+	}
+	for _, body := range bodies {
+		for _, st := range FieldStoresOf(body, lz) {
+			n++
+			rn := "d"
+			if len(body.Params) > 0 {
+				rn = body.Params[0].Name()
+			} else if len(body.FreeVars) > 0 {
+				rn = body.FreeVars[0].Name()
+			}
+			dv := Desc(st.Instr.Val)
+			okVal = st.Field == "core" && (dv == "With(d.originalCore, d.fields)" || dv == "With("+rn+".originalCore, "+rn+".fields)")
+		}
 	}
 	c.Check(n == 1 && okVal, "R7.6", init.String(), "evaluates-once", init.Pos(), "the Once closure performs exactly one store: core = originalCore.With(fields)")
 	_ = token.NoPos
@@ -714,7 +733,22 @@ func c7Eager(c *Ctx) {
 			continue
 		}
 		eager, lazy := false, false
-		for _, f := range Region(fn) {
+		region := Region(fn)
+		// the option may be a named type whose apply method does the work: follow the types the function returns
+		for _, r := range Returns(fn) {
+			for _, rv := range RetVals(r) {
+				v := rv
+				if mi, ok := v.(*ssa.MakeInterface); ok {
+					v = mi.X
+				}
+				if n, ok := types.Unalias(v.Type()).(*types.Named); ok && n.Obj().Pkg() != nil && n.Obj().Pkg().Path() == ZapPath {
+					if m := c.Method(ZapPath, n.Obj().Name(), "apply"); m != nil {
+						region = append(region, Region(m)...)
+					}
+				}
+			}
+		}
+		for _, f := range region {
 			for _, g := range WithClosures(f) {
 				for _, cl := range Calls(g) {
 					if IsCallTo(cl, "(go.uber.org/zap/zapcore.Core).With") {
